@@ -44,7 +44,8 @@ def g_desc(c, p=60):
 def g_dep(c, p=30):
     if not c.chance(p):
         return None
-    return c.choose(["No longer supported", "use b", "", "why \"not\"", "multi\nline", " x", "\u00e9"])
+    return c.choose(["No longer supported", "use b", "", "why \"not\"", "multi\nline", " x", "\u00e9", "",
+                     "No longer supported"])
 
 
 def named(t):
@@ -197,7 +198,7 @@ def g_input_values(c, m, names, lo, hi, upto_input=None, allow_dep=True):
         default = None
         if c.chance(90):
             default = ["v", g_value(c, m, t, 2)]
-        dep = g_dep(c, 25) if allow_dep and (not is_nn(t) or default is not None) else None
+        dep = g_dep(c, 70) if allow_dep and (not is_nn(t) or default is not None) else None
         out.append({"name": n, "type": t, "default": default, "desc": g_desc(c, 40), "dep": dep})
     return out
 
@@ -591,7 +592,8 @@ def build(m, resolvers=None, type_resolver=None, use_out_names=False):
                                             description=u["desc"], resolve_type=type_resolver)
     directives = list(specified_directives) + [
         GraphQLDirective(d["name"], d["locations"], args=mk_args(d["args"]),
-                         is_repeatable=d["repeatable"], description=d["desc"])
+                         is_repeatable=d["repeatable"], description=d["desc"],
+                         deprecation_reason=d.get("dep"))
         for d in m["directives"]]
     return GraphQLSchema(
         query=types[m["query"]],
